@@ -317,22 +317,22 @@ def emit(repo: str) -> str:
         f"Definition help_status_gen : nat := {status}.\n"
         f"Definition help_stdout_gen : bool := {_b(to_stdout)}.\n"
         "(* the model instantiated with the regenerated facts; `perm` is the hash-seed oracle *)\n"
-        "Definition exposedb_gen := exposedb skip_gen.\n"
+        "Definition exposedb_gen := exposedb skip_gen cmd_default_gen.\n"
         "Definition ordered_opts_gen := ordered_opts option_order_preserved_gen.\n"
         "Definition entry_of_gen := entry_of arg_help_gen TEMPORARY_TOKEN_gen adds_default_gen strips_token_gen option_order_preserved_gen.\n"
-        "Definition help_entries_gen := help_entries skip_gen arg_help_gen TEMPORARY_TOKEN_gen adds_default_gen strips_token_gen option_order_preserved_gen.\n"
+        "Definition help_entries_gen := help_entries skip_gen cmd_default_gen arg_help_gen TEMPORARY_TOKEN_gen adds_default_gen strips_token_gen option_order_preserved_gen.\n"
         "Definition resolver_gen (perm : list string -> list string) (c : cfg) (m : crmode) : list fw -> res (list fw) :=\n"
         "  resolve_gen (ordered_opts_gen perm c) m.\n"
-        "Definition setup_gen (perm : list string -> list string) (c : cfg) (m : crmode) := setup skip_gen (resolver_gen perm c m).\n"
+        "Definition setup_gen (perm : list string -> list string) (c : cfg) (m : crmode) := setup skip_gen cmd_default_gen (resolver_gen perm c m).\n"
         "Definition api_defaults_gen := api_defaults print_help_applies_config_gen.\n"
         "(* the three observable behaviours on an already computed set-up outcome ... *)\n"
         "Definition cli_help_of_gen (perm : list string -> list string) :=\n"
-        "  cli_help_of skip_gen arg_help_gen TEMPORARY_TOKEN_gen adds_default_gen strips_token_gen option_order_preserved_gen perm\n"
+        "  cli_help_of skip_gen cmd_default_gen arg_help_gen TEMPORARY_TOKEN_gen adds_default_gen strips_token_gen option_order_preserved_gen perm\n"
         "              help_status_gen help_stdout_gen.\n"
         "Definition api_help_of_gen (perm : list string -> list string) :=\n"
-        "  api_help_of skip_gen arg_help_gen TEMPORARY_TOKEN_gen adds_default_gen strips_token_gen option_order_preserved_gen perm\n"
+        "  api_help_of skip_gen cmd_default_gen arg_help_gen TEMPORARY_TOKEN_gen adds_default_gen strips_token_gen option_order_preserved_gen perm\n"
         "              print_help_sets_up_gen print_help_applies_config_gen.\n"
-        "Definition parse_defaults_of_gen := parse_defaults_of skip_gen print_help_sets_up_gen print_help_applies_config_gen.\n"
+        "Definition parse_defaults_of_gen := parse_defaults_of skip_gen cmd_default_gen print_help_sets_up_gen print_help_applies_config_gen.\n"
         "(* ... and composed with set-up: parse_args([\"--help\"]), print_help(), a parse with an empty command line *)\n"
         "Definition run_cli_help_gen (perm : list string -> list string) (c : cfg) (m : crmode) (pre cfgf : dmap) (F : list hwrap) :=\n"
         "  cli_help_of_gen perm c pre cfgf (setup_gen perm c m F).\n"
